@@ -377,7 +377,8 @@ func (d *diff) compareResults(dctx *diffCtx, r Range, myRes, otherRes RangeResul
 		}
 		return
 	}
-	if otherRes.Count <= d.compareThreshold && len(otherRes.Elements) == 0 || len(myRes.Elements) == myRes.Count {
+	if otherRes.Count <= d.compareThreshold && len(otherRes.Elements) == 0 || len(myRes.Elements) == myRes.Count ||
+		!canDivide(r.From, r.To, d.divideFactor) {
 		r.Elements = true
 		dctx.prepare = append(dctx.prepare, r)
 		return
